@@ -94,6 +94,7 @@ func init() {
 			o["panic"] = "String: " + p
 			return o
 		}
+		var kept []string // the first answer itself, looked at again at the end of the history
 		for _, k := range []string{"c1", "c2", "c3"} {
 			var cols []string
 			if p := guard(func() { cols = s.ColumnNames() }); p != "" {
@@ -101,6 +102,9 @@ func init() {
 				return o
 			}
 			o[k] = c20Strings(cols)
+			if k == "c1" {
+				kept = cols
+			}
 		}
 		if p := guard(func() { str1 = s.String() }); p != "" {
 			o["panic"] = "String: " + p
@@ -161,6 +165,19 @@ func init() {
 			}
 			o["c5"], o["c6"], o["edited"] = c20Strings(cols5), c20Strings(cols6), edited
 		}
+		// ... and so are a clone's names after ITS fields were renamed; the first answer is still what it was
+		if p := guard(func() {
+			cl := s.Clone()
+			for _, f := range cl.Fields {
+				f.Alias = "zz" + f.Alias
+			}
+			cl.OmitTime = !cl.OmitTime
+			_ = cl.ColumnNames()
+		}); p != "" {
+			o["panic"] = "clone: " + p
+			return o
+		}
+		o["c1_later"] = c20Strings(kept)
 		return o
 	}})
 }
